@@ -526,3 +526,7 @@ package smtp
 //@ at smtp.Client.Rcpt smtp.Client.cmd#1 before assert[C06:rcpt-line] arg2 == "RCPT TO:<%s>" && len(arg3) == 1 && istype(arg3[0], "string") && unboxstr(arg3[0]) == to
 //@ at smtp.Client.Rcpt smtp.Client.cmd#2 before assert[C06:rcpt-line] arg2 == "RCPT TO:<%s> NOTIFY=%s" && len(arg3) == 2 && istype(arg3[0], "string") && unboxstr(arg3[0]) == to
 //@ at smtp.Client.Mail smtp.Client.cmd#1 before assert[C06:mail-line] len(arg3) == 1 && istype(arg3[0], "string") && unboxstr(arg3[0]) == from
+
+// C17 (continued): a response that was started is ended on every path (the sequencer wait has no deadline)
+//@ func smtp.Client.cmd (expectCode, format, args) (code, msg, err)
+//@   restores[C17:response-ended] respopen
